@@ -256,6 +256,7 @@ func RunWorker(t *testing.T) {
 	}
 	wo := &WorkerOut{Prop: prop, Tier: tier, Worker: worker, Fired: map[string]int{}, Probes: map[string]int{}, Evals: map[string]int{}, Failures: map[string]*failGroup{}, Gauges: map[string]int{}}
 	hashes := map[uint64]bool{}
+	firstFail := os.Getenv("VERIF_FIRST_FAIL") != ""
 	t0 := time.Now()
 	baseG := runtime.NumGoroutine()
 	i := start
@@ -341,6 +342,11 @@ func RunWorker(t *testing.T) {
 			i++
 			break
 		}
+		// sensitivity runs (bin/seeded-matrix --first): the first violation that is not a recorded finding ends the worker
+		if firstFail && unknownFailure(wo) {
+			i++
+			break
+		}
 	}
 	wo.NextIndex = i
 	wo.WallS = time.Since(t0).Seconds()
@@ -348,6 +354,15 @@ func RunWorker(t *testing.T) {
 		wo.Hashes = append(wo.Hashes, strconv.FormatUint(h, 16))
 	}
 	writeJSON(t, out, wo)
+}
+
+func unknownFailure(wo *WorkerOut) bool {
+	for _, g := range wo.Failures {
+		if !g.Known {
+			return true
+		}
+	}
+	return false
 }
 
 func writeJSON(t *testing.T, path string, v any) {
